@@ -332,6 +332,14 @@ class Engine:
         r = fresh(name, ty.RefSort)
         st.assume(r != ty.null)
         st.assume(z3.Not(z3.Select(self.alloc(st), r)))
+        # heap well-formedness w.r.t. the CURRENT allocation map: what an allocated object references through an
+        # immutable field is allocated too (so it cannot be the object created now)
+        alc = self.alloc(st)
+        wr = z3.Const("wr", ty.RefSort)
+        for (owner, fname), f in list(self.imm.items()):
+            if f.range() == ty.RefSort and self.spec.classes.get(owner, {}).get("fields", {}).get(fname, (None,))[0] is not None \
+                    and self.spec.classes[owner]["fields"][fname][0].kind != "fn":
+                st.assume(z3.ForAll([wr], z3.Implies(z3.Select(alc, wr), z3.Or(f(wr) == ty.null, z3.Select(alc, f(wr)))), patterns=[f(wr)]))
         # facts that survive path-condition pruning: not part of the initial heap (allocation only grows), and a
         # birth stamp per allocation point (objects of the initial heap have stamp 0): different stamps, different objects
         if ("alloc",) not in self.heap0:
@@ -483,7 +491,9 @@ class Engine:
         name = f"{short(vq)}:{kind}:{label}" if label else f"{short(vq)}:{kind}"
         if tags is None:
             tags = self.function_tags(vq)
-        self.obligations.append(Obligation(name, list(st.pc), goal, kind, vq, info, expect, tuple(tags)))
+        pc = list(st.pc)
+        for g in (split_goal(goal) if expect == "valid" else [goal]):
+            self.obligations.append(Obligation(name, pc, g, kind, vq, info, expect, tuple(tags)))
 
     def function_tags(self, q):
         """tags of an obligation without its own label: the function's owners plus every property that has a
@@ -866,6 +876,10 @@ class Engine:
                                                             z3.Implies(z3.And(0 <= a.z, a.z < b.z), z3.And(r == a.z, q == 0)),
                                                             z3.Implies(a.z == b.z, z3.And(r == 0, q == 1)))))
             return V(INT, q if isinstance(op, ast.FloorDiv) else r)
+        if isinstance(op, ast.FloorDiv) and not both_int:
+            br = self.coerce(b, REAL).z
+            self.raise_edge(fr, st, br == 0, "ZeroDivisionError", where)
+            return V(REAL, z3.ToReal(z3.ToInt(self.div(a, b).z)))
         if isinstance(op, ast.Pow):
             if self.is_constz(b.z) and z3.simplify(b.z).as_long() == 2:
                 return self.mul(a, a)
@@ -1501,6 +1515,14 @@ class Engine:
         return self.binop(op, cur, rhs, st, fr, node)
 
     def ex_Return(self, s, st, fr):
+        # empty list literals in a returned tuple take their element type from the contract's return type
+        rt = fr.contract.returns if fr.contract is not None else None
+        if rt is not None and isinstance(s.value, ast.Tuple) and rt.kind == "tuple":
+            for e, t in zip(s.value.elts, rt.args):
+                if isinstance(e, ast.List) and not e.elts and t.kind == "list":
+                    e._elem_t = t.args[0]
+        if rt is not None and isinstance(s.value, ast.List) and not s.value.elts and rt.kind == "list":
+            s.value._elem_t = rt.args[0]
         val = self.ev(s.value, st, fr) if s.value is not None else V(NONE, ty.null)
         return [Outcome("ret", st, val)]
 
@@ -1719,6 +1741,33 @@ class Engine:
     def sev_bool(self, src: str, st: State, fr: Frame, binds=None):
         v = self.sev(src, st, fr, binds)
         return self.truthy(v, st, fr)
+
+
+def split_goal(goal, depth=0):
+    """A /\\ B  and  forall x. G => (A /\\ B)  are proved conjunct by conjunct (smaller queries, same meaning)."""
+    if depth > 3:
+        return [goal]
+    if z3.is_and(goal):
+        out = []
+        for c in goal.children():
+            out.extend(split_goal(c, depth + 1))
+        return out
+    if z3.is_quantifier(goal) and goal.is_forall() and goal.num_patterns() == 0:
+        body = goal.body()
+        guard = None
+        if z3.is_implies(body):
+            guard, body = body.arg(0), body.arg(1)
+        if z3.is_and(body) and body.num_args() > 1:
+            names = [goal.var_name(i) for i in range(goal.num_vars())]
+            sorts = [goal.var_sort(i) for i in range(goal.num_vars())]
+            consts = [z3.Const(f"{n}!sp{next(_fresh)}", srt) for n, srt in zip(names, sorts)]
+            out = []
+            for c in body.children():
+                inst = z3.substitute_vars(c if guard is None else z3.Implies(guard, c), *reversed(consts))
+                for piece in split_goal(z3.ForAll(consts, inst), depth + 1):
+                    out.append(piece)
+            return out
+    return [goal]
 
 
 def short(qname: str) -> str:
